@@ -22,7 +22,7 @@ def run(ck):
                "request inside a context")
     ck.trusted += ["harness/c14.py; numpy.exp and the normalisation are applied by the harness to the exponents returned by the Lean plan",
                    "hand model QV/Model/C14.lean validated on generated inputs"]
-    ck.prove(PROPS, extra_modules=["QV.Drive.C14"])
+    ck.prove(PROPS, extra_modules=["QV.Drive.C14"], also=["QV.Props.C14Units"])
     ta = TimeAxis(0.0, 100, 1.0)
     lines, impl = [], []
 
